@@ -76,7 +76,7 @@ def _selftests(c, events):
     """binding self-tests: corrupted copies of accepted observations must each be rejected with the expected clause"""
     def first(pred):
         for e in events:
-            if not e['raised'] and pred(e):
+            if e['ev'] == 'mol' and not e['raised'] and not e['pre'] and pred(e):
                 return copy.deepcopy(e)
         raise vlib.MachineryError('no accepted event available for a self-test')
 
@@ -192,8 +192,8 @@ def run(tier):
     vlib.run_driver('drive_taps.py', [trace, tier, c.seed] + scn_files)
     events = vlib.read_ndjson(trace)
     rejects = _validate_chunks(c, events, 4 if q else 6)
-    c.samples = [vlib._shorten(e, 900) for e in events if e['src'] == 'random' and e['calls']][:2] + \
-                [vlib._shorten(e, 600) for e in events if e['src'] != 'random' and e['calls']][:2]
+    c.samples = [vlib._shorten(e, 900) for e in events if e['src'] == 'random' and e['calls']][:2] + [e for e in events if e['ev'] == 'ctx'][:1] + \
+                [vlib._shorten(e, 600) for e in events if e['src'] in ('context', 'geometry') and e['calls']][:2]
     if not rejects:
         _selftests(c, events)
     div = {k: v for k, v in c.notes.items() if k.startswith('divergence')}
@@ -207,6 +207,8 @@ def run(tier):
                       'where the statement requires a letter (target base, consensus defined, complete ACGT context)']
 
     def shape(e):
+        if e['ev'] == 'ctx':
+            return ('ctx', e['symbol'], e['obs'])
         return (e['src'], e['cls'], e['conv'], e['strand'], len(e['frags']), tuple(sorted(set(x['letter'] for x in e['calls']))))
     return c.finish(rule='one event = one molecule built with the real classes: random molecules on random references + every scenario '
                          'enumerated by TLC from the context and geometry models; distinct_nontrivial counts distinct '
